@@ -15,11 +15,15 @@
     Together with C01 (rows = live entities with their data; [val] reads the same cell that
     random access reads) this gives: exactly the entities in the selected tables are visited.
     That the walk selects exactly the tables of matching archetypes/targets is the definition of
-    the walk (mask match + per-table target match incl. generations: RelProofs); the completeness of
-    the rare-component preselection (componentIndex lists every archetype containing the
-    component) is tied by the correspondence stream `query` and the internal dump, not proved. *)
+    the walk (mask match + per-table target match incl. generations: RelProofs).
+    - THE RARE-COMPONENT PRESELECTION IS COMPLETE (StorageD.v): in every state in which the component
+      index is exact - an invariant of all histories of the core operations, queries and filter
+      creation ([C03_preselection_complete_after_every_history]) - a typed query that preselects the
+      archetypes of its rarest component walks exactly the same matching archetypes, in the same
+      order, as the walk over all archetypes: same walk, same Count, same rows, also when the walk
+      panics ([C03_preselection_complete]). *)
 From Ark Require Import Model.Base Model.Mask Model.Pool Model.Util Model.World Model.Run.
-From Ark Require Import Proofs.ObsDoc Proofs.WF Proofs.StorageA Proofs.QueryProofs Proofs.RelProofs Properties.Common.
+From Ark Require Import Proofs.ObsDoc Proofs.WF Proofs.StorageA Proofs.QueryProofs Proofs.RelProofs Proofs.StorageD Properties.Common.
 
 Theorem C03_filter_matches_sets : forall f m,
   filter_matches f m = true <->
@@ -77,6 +81,10 @@ Example C03_drain_example :
   match drain false 10 0 query_world with Ok es _ => es | Err _ _ => [] end = [(2, 0%N); (3, 0%N); (5, 0%N)].
 Proof. vm_compute. reflexivity. Qed.
 
-Definition C03_all := (C03_filter_matches_sets, C03_exclusive_exact, C03_iteration_is_the_walk, C03_count_is_visited,
+Definition C03_preselection_complete := preselection_complete.
+Definition C03_preselection_complete_after_every_history := reachable_queries_preselection_complete.
+Definition C03_preselection_examples := (sd_world_inv5, sd_world_shape, sd_world_preselection).
+
+Definition C03_all := (C03_preselection_complete, C03_preselection_complete_after_every_history, C03_preselection_examples, C03_filter_matches_sets, C03_exclusive_exact, C03_iteration_is_the_walk, C03_count_is_visited,
   C03_entity_at, C03_queries_do_not_write, C03_targets_compare_generations).
 Print Assumptions C03_all.
